@@ -418,7 +418,7 @@ func runShape(c *mc.Ctx, sh shape, br *o4h.Bridge, seed int64, quick bool) {
 						fail(c, "no-panic", key, "%s Write(%d bytes) iat-mode=%d panicked: %v (first scripted sample cell idx=%d coin=%v)", sh.role, size, sh.iat, r, ce.idx, ce.coin)
 					}
 				}()
-				k, werr = conn.Write(data)
+				k, werr = wire.WriteOwned(conn, data)
 			}()
 			if werr != nil {
 				realErr = werr
